@@ -93,13 +93,22 @@ impl Mock {
     }
 }
 
+#[derive(Debug)]
+struct DisposeErr;
+impl std::fmt::Display for DisposeErr {
+    fn fmt(&self, f: &mut std::fmt::Formatter<'_>) -> std::fmt::Result {
+        write!(f, "disposed")
+    }
+}
+impl std::error::Error for DisposeErr {}
+
 pub fn run_script(script: &str) -> String {
     let m = Mock(Arc::new(Inner { tasks: Mutex::new(vec![]), timers: Mutex::new(vec![]), fail: Mutex::new(None), log: Mutex::new(vec![]) }));
     let src = interval(Duration::from_millis(10), m.clone());
     // per subscription: talkback, task index (if spawned), "dispose inside the next data handler" flag
     let tbs: Arc<Mutex<Vec<Option<Arc<Source<usize>>>>>> = Arc::new(Mutex::new(vec![]));
     let mut task_of: Vec<Option<usize>> = vec![];
-    let nested: Arc<Mutex<Vec<bool>>> = Arc::new(Mutex::new(vec![]));
+    let nested: Arc<Mutex<Vec<u8>>> = Arc::new(Mutex::new(vec![]));
     for tok in script.split_whitespace() {
         let b = tok.as_bytes();
         let digits: String = tok[1..].chars().take_while(|c| c.is_ascii_digit()).collect();
@@ -109,7 +118,7 @@ pub fn run_script(script: &str) -> String {
         while task_of.len() <= j {
             task_of.push(None);
             tbs.lock().unwrap().push(None);
-            nested.lock().unwrap().push(false);
+            nested.lock().unwrap().push(0);
         }
         match b[0] {
             b'S' => {
@@ -131,11 +140,15 @@ pub fn run_script(script: &str) -> String {
                         },
                         Message::Data(d) => {
                             inner.log.lock().unwrap().push(format!("D{j}:{d}"));
-                            let fire = std::mem::replace(&mut nested2.lock().unwrap()[j], false);
-                            if fire {
+                            let fire = std::mem::replace(&mut nested2.lock().unwrap()[j], 0);
+                            if fire != 0 {
                                 let tb = tbs2.lock().unwrap()[j].clone();
                                 if let Some(tb) = tb {
-                                    tb(Message::Terminate);
+                                    if fire == 1 {
+                                        tb(Message::Terminate);
+                                    } else {
+                                        tb(Message::Error(Arc::new(DisposeErr)));
+                                    }
                                 }
                             }
                         },
@@ -162,16 +175,25 @@ pub fn run_script(script: &str) -> String {
             b'T' => {
                 if let Some(t) = task_of[j] {
                     if suffix == "q" {
-                        nested.lock().unwrap()[j] = true;
+                        nested.lock().unwrap()[j] = 1;
+                    } else if suffix == "e" {
+                        nested.lock().unwrap()[j] = 2;
                     }
                     m.expire(t);
-                    nested.lock().unwrap()[j] = false;
+                    nested.lock().unwrap()[j] = 0;
                 }
             },
             b'Q' => {
                 let tb = tbs.lock().unwrap()[j].clone();
                 if let Some(tb) = tb {
                     tb(Message::Terminate);
+                }
+            },
+            b'R' => {
+                // disposal with Error on the talkback
+                let tb = tbs.lock().unwrap()[j].clone();
+                if let Some(tb) = tb {
+                    tb(Message::Error(Arc::new(DisposeErr)));
                 }
             },
             _ => return "?badscript".into(),
